@@ -10,14 +10,26 @@ def _on_alarm(_sig, _frm):
     raise CaseTimeout()
 
 
+def arm(seconds):
+    """Starts the per-case timer: `seconds` of CPU time of this process (ITIMER_PROF, so machine load cannot trip it), with a wall
+    clock backstop of 20x that for a case that blocks without using the processor."""
+    signal.signal(signal.SIGPROF, _on_alarm)
+    signal.signal(signal.SIGALRM, _on_alarm)
+    signal.setitimer(signal.ITIMER_PROF, float(seconds))
+    signal.alarm(int(seconds * 20))
+
+
+def disarm():
+    signal.setitimer(signal.ITIMER_PROF, 0)
+    signal.alarm(0)
+
+
 def with_alarm(seconds, fn, *args):
-    """Runs fn(*args); raises CaseTimeout if it does not return within `seconds` (wall clock).
+    """Runs fn(*args); raises CaseTimeout if it does not return within `seconds` of CPU time (see arm()).
     The ceilings used by the property modules are >= 50x the slowest case measured on the unchanged tree, so that only a
     change of complexity class - not machine load - can trip them."""
-    old = signal.signal(signal.SIGALRM, _on_alarm)
-    signal.alarm(int(seconds))
+    arm(seconds)
     try:
         return fn(*args)
     finally:
-        signal.alarm(0)
-        signal.signal(signal.SIGALRM, old)
+        disarm()
